@@ -157,7 +157,7 @@ pub fn rle_16_decompress(input: &[u8], width: usize, mut height: usize, output: 
 	let mut code: u8;
 	let mut opcode: u8;
 	let mut lastopcode: u8 = 0xFF;
-	let mut count: u16;
+	let mut count: u32;
 	let mut offset: u16;
 	let mut isfillormix;
 	let mut insertmix = false;
@@ -180,13 +180,13 @@ pub fn rle_16_decompress(input: &[u8], width: usize, mut height: usize, output: 
 		match opcode {
 			0xC | 0xD | 0xE => {
 				opcode -= 6;
-				count = (code & 0xf) as u16;
+				count = (code & 0xf) as u32;
 				offset = 16;
 			}
 			0xF => {
 				opcode = code & 0xf;
 				if opcode < 9 {
-					count = input_cursor.read_u16::<LittleEndian>()?
+					count = input_cursor.read_u16::<LittleEndian>()? as u32
 				} else if opcode < 0xb {
 					count = 8
 				} else {
@@ -196,7 +196,7 @@ pub fn rle_16_decompress(input: &[u8], width: usize, mut height: usize, output: 
 			}
 			_ => {
 				opcode >>= 1;
-				count = (code & 0x1f) as u16;
+				count = (code & 0x1f) as u32;
 				offset = 32;
 			}
 		}
@@ -205,9 +205,9 @@ pub fn rle_16_decompress(input: &[u8], width: usize, mut height: usize, output: 
 			isfillormix = (opcode == 2) || (opcode == 7);
 			if count == 0 {
 				if isfillormix {
-					count = input_cursor.read_u8()? as u16 + 1;
+					count = input_cursor.read_u8()? as u32 + 1;
 				} else {
-					count = input_cursor.read_u8()? as u16 + offset;
+					count = input_cursor.read_u8()? as u32 + offset as u32;
 				}
 			} else if isfillormix {
 				count <<= 3;
